@@ -2,6 +2,7 @@ import RsslVerif.Lemmas.LexerStream
 import RsslVerif.Lemmas.LexerInt
 import RsslVerif.Lemmas.LexerFloat
 import RsslVerif.Lemmas.Dec2Bin
+import RsslVerif.Lemmas.Dec2BinNearest
 /-!
 # C10 — lexing is lossless and numeric literals are exact
 
@@ -364,6 +365,17 @@ theorem nearest_correct_partial (f : Fmt) (hf : f = binary64 ∨ f = binary32) (
   exact ⟨q, A, B, m, h1, h2, h3, h4, h5, h6,
     fun hq T m' hT hm' => finer_grid_not_closer f.p A B m m' T h2 (by omega) (h8 hq) hm' hT h4,
     h7, h8, h9, h10, h11⟩
+
+open Dec2Bin in
+/-- **nearest_correct**: for every positive rational `x = N / M`, `nearestRat f N M` is the bit pattern IEEE 754
+prescribes for round-to-nearest-ties-to-even (`Spec.Dec2Bin.IsNearestEven`: unit in the last place of `x`'s binade
+with gradual underflow, no value with a `p`-bit significand and exponent `≥ emin` closer, at most half an ulp off,
+exactly half ⇒ even significand, `+∞` exactly when the result rounded with unbounded exponent reaches
+`2^(emax+1)`). Both formats. -/
+theorem nearest_correct (f : Fmt) (hf : f = binary64 ∨ f = binary32) (N M : Nat) (hN : 0 < N) (hM : 0 < M) :
+    IsNearestEven f N M (nearestRat f N M) :=
+  nearestRat_isNearestEven f (by rcases hf with h | h <;> subst h <;> decide)
+    (by rcases hf with h | h <;> subst h <;> decide) N M hN hM
 
 open Dec2Bin in
 /-- **nearest_exact_on_representable**: a positive finite value `m · 2^q` of the format (canonical
